@@ -172,7 +172,7 @@ def mainOutcomeSel (opts : List ResOpt) (nearGiven : Bool) (inputs : List (Field
     | none => wrapKernel Pmn.Const.kernelCaught k
   | r => r
 
-theorem expectedSel_ok (s : Selection) (f : Field) (c : NumClass) : Outcome.ok (expectedSel s f c) = true := by
+theorem expectedSel_ok (s : Selection) (rows : Bool) (f : Field) (c : NumClass) : Outcome.ok (expectedSel s rows f c) = true := by
   have h := C20_table f c
   unfold expectedSel
   cases he : expected f c with
@@ -199,7 +199,7 @@ theorem composeSel_ok (opts : List ResOpt) (nearGiven : Bool) (inputs : List (Fi
     apply composeOutcome_ok
     intro x hx
     obtain ⟨fc, _, rfl⟩ := List.mem_map.mp hx
-    exact expectedSel_ok s fc.1 fc.2
+    exact expectedSel_ok s _ fc.1 fc.2
 
 /-- **trichotomy with the result options**: whatever results are requested (any list of `--option`, `--near-field` present or
 not) and whatever value classes any number of inputs hold, the outcome is the usage error, the diagnostic or the report -/
@@ -268,9 +268,9 @@ theorem C20_near_needs_parameters (opts : List ResOpt) (inputs : List (Field × 
 
 /-- an input that only a result which is not computed looks at cannot end the run with its diagnostic; an input that is
 validated while the model is built does so whatever is requested -/
-theorem C20_unselected_silent (s : Selection) (f : Field) (c : NumClass) :
-    (s.runs (stage f c) = false → expectedSel s f c ≠ .diag) ∧
-    (s.runs (stage f c) = true → expectedSel s f c = expected f c) := by
+theorem C20_unselected_silent (s : Selection) (rows : Bool) (f : Field) (c : NumClass) :
+    (s.runs rows (stage f c) = false → expectedSel s rows f c ≠ .diag) ∧
+    (s.runs rows (stage f c) = true → expectedSel s rows f c = expected f c) := by
   unfold expectedSel
   constructor
   · intro h
@@ -278,9 +278,10 @@ theorem C20_unselected_silent (s : Selection) (f : Field) (c : NumClass) :
   · intro h
     cases he : expected f c <;> simp [h]
 
-/-- with every result requested the rule is the composition rule for inputs that are all evaluated -/
+/-- with every result requested (and a far-field table that has rows) the rule is the composition rule for inputs that are all evaluated -/
 theorem C20_sel_all (nearGiven : Bool) (inputs : List (Field × NumClass)) (opts : List ResOpt)
-    (s : Selection) (hs : select opts nearGiven = some s) (hf : s.far = true) (ha : s.farAbs = true) (hn : s.near = true) :
+    (s : Selection) (hs : select opts nearGiven = some s) (hf : s.far = true) (ha : s.farAbs = true) (hn : s.near = true)
+    (hr : farHasRows inputs = true) :
     composeSel opts nearGiven inputs = composeOutcome (inputs.map fun fc => expected fc.1 fc.2) := by
   unfold composeSel
   rw [hs]
@@ -288,8 +289,8 @@ theorem C20_sel_all (nearGiven : Bool) (inputs : List (Field × NumClass)) (opts
   congr 1
   apply List.map_congr_left
   intro fc _
-  apply (C20_unselected_silent s fc.1 fc.2).2
-  cases stage fc.1 fc.2 <;> simp [Selection.runs, hf, ha, hn]
+  apply (C20_unselected_silent s _ fc.1 fc.2).2
+  cases stage fc.1 fc.2 <;> simp [Selection.runs, hf, ha, hn, hr]
 
 /-- only thirteen cells of the table belong to a particular result; every other diagnostic is independent of the request -/
 theorem C20_stage_cells :
@@ -305,6 +306,12 @@ theorem C20_stage_only_diag (f : Field) (c : NumClass) (h : stage f c ≠ .alway
 near-field request is a report (only the near field is computed), with the far field requested it is the diagnostic -/
 example : composeSel [] true [(.phiInc, .inf), (.nfPower, .zero)] = .report ∧
     composeSel [.farField, .nearField] true [(.phiInc, .inf), (.nfPower, .zero)] = .diag := by decide
+
+/-- … and of the second one: a negative number of radials is noticed in the values of the far-field directions; with no
+direction at all (a zenith count of zero or less) the run is a report with an empty pattern -/
+example : composeSel [] false [(.radialCount, .neg)] = .diag ∧
+    composeSel [] false [(.thetaCount, .neg), (.radialCount, .neg)] = .report ∧
+    composeSel [] false [(.thetaCount, .neg), (.phiInc, .inf)] = .diag := by decide
 
 /-- the former `main` had no clause around the compute loop: a kernel exception escaped -/
 theorem C20_defect_witness : wrapKernel [] (.raises .ZeroDivisionError) = .crash .ZeroDivisionError := by
